@@ -50,6 +50,9 @@ def obligations(tier):
                      bounds="user pool of 0..4 units, buffer length 0..4", symbolic="pool size, buffer length, which variant"))
     o.append(Obl("unitmap_dup_key", "C14/unitdup.c", "bucket with TWO live entries of one key (a unit moving between two user pools that use the same handle value: the new mapping is created before the old one is removed): ABTI_unit_unmap_thread removes exactly one, the unit stays translatable",
                  unwind=5, cut_loops=SPIN, object_bits=10, backend="cadical", encodes=["ABTI_unit_unmap_thread", "ABTI_unit_get_thread_from_user_defined_unit"], bounds="chain of 3", symbolic="positions of the duplicate entries, third entry live or tombstone"))
+    o.append(Obl("sched_free_order", "C14/schedfree.c", "real ABTI_sched_free of a scheduler with 1..2 pools (user-defined or built-in, automatic or not, shared or not, forced or not: symbolic) whose ULT is associated with its first pool (main scheduler), its second pool or an unrelated pool: the ULT's unit goes back to its pool exactly once and while that pool is alive; pools are freed iff automatic and unshared (or forced), exactly once",
+                 unwind=4, cut_loops=["ABTD_spinlock_acquire.0", "ABTD_spinlock_acquire.1"], object_bits=11, backend="cadical", no_std=["--pointer-overflow-check"], flags=["--memory-leak-check"],
+                 encodes=["ABTI_sched_free", "ABTI_thread_unset_associated_pool", "ABTI_pool_release"], bounds="<=2 pools", symbolic="pool kinds, automatic flags, sharing, force flag, where the scheduler ULT lives"))
     return o
 
 MANIFEST_ENTRY = {
